@@ -16,6 +16,18 @@ def _job(job):
     return ("ok", chem.canon(smi) if smi else "")
 
 
+def _all_tokens(name):
+    """all recipe tokens of all residues as the real front-end reads the string (sorted), or None"""
+    try:
+        from glyles import Glycan
+        t = Glycan(name, tree_only=True).get_tree()
+        if t is None:
+            return None
+        return sorted(x[0] for n in t.nodes for x in t.nodes[n]["type"].recipe)
+    except Exception:
+        return None
+
+
 def run(rep, tier, driver):
     rng = random.Random(seed() * 37 + 10)
     vocab = gen.Vocab()
@@ -25,7 +37,7 @@ def run(rep, tier, driver):
     keys = vocab.keys_p | vocab.keys_f | vocab.keys_o | {k[:-3] for k in vocab.keys_o if k.endswith("-OL")}
     unknown_sugars = sorted(s for s in vocab.sac if s.upper() not in keys and s not in ("Suc", "Sug")) or ["Unk"]
     rep.notes.append("grammar-accepted functional groups without chemistry: %s; sugars without a table entry: %s" % (dead_fg, unknown_sugars))
-    jobs, meta = [], []
+    jobs, meta, relex = [], [], []
     n = 120 if tier == "quick" else 1500
     for i in range(n):
         t = cv.random_tree(rng, rng.randint(1, 7 if tier == "quick" else 15))
@@ -34,6 +46,7 @@ def run(rep, tier, driver):
         victim = rng.choice(nodes)
         kind = rng.choice(["none", "unknown-sugar", "dead-mod", "missing-position", "qmark-link", "qmark-anomer", "fragment"])
         variant = None
+        injected = None
         if kind == "unknown-sugar":
             old = victim.name
             victim.name = rng.choice(unknown_sugars)
@@ -42,7 +55,8 @@ def run(rep, tier, driver):
         elif kind == "dead-mod" and dead_fg:
             old = victim.name
             free = [p for p, e in cv.get(old)["free"] if p != cv.get(old).get("anomeric")] or [3]
-            victim.name = old + "%d%s" % (rng.choice(free), rng.choice(dead_fg))
+            injected = "%d%s" % (rng.choice(free), rng.choice(dead_fg))
+            victim.name = old + injected
             variant = gen.render(t, "full")
             victim.name = old
         elif kind == "missing-position":
@@ -52,7 +66,8 @@ def run(rep, tier, driver):
             nc = sum(1 for a in chem.mol(cv.get(old)["smiles"]).GetAtoms() if a.GetSymbol() == "C")
             beyond = [p for p in range(nc + 1, 10)]
             if beyond and not old[-1].isdigit():
-                victim.name = old + "%d%s" % (rng.choice(beyond), rng.choice(["S", "P", "Ac", "Bz", "F"]))
+                injected = "%d%s" % (rng.choice(beyond), rng.choice(["S", "P", "Ac", "Bz", "F"]))
+                victim.name = old + injected
                 variant = gen.render(t, "full")
                 victim.name = old
         elif kind in ("qmark-link", "qmark-anomer"):
@@ -71,6 +86,8 @@ def run(rep, tier, driver):
                     l["anomer"] = old
         elif kind == "fragment":
             variant = "{%s(a1-?)}%s" % (rng.choice(cv.common), base)
+        if variant is not None and injected is not None:
+            relex.append((i, base, variant, injected))
         for full in (True, False):
             jobs.append((base, full))
             meta.append((i, "base", full, kind, base))
@@ -82,6 +99,17 @@ def run(rep, tier, driver):
                 "full=True every obstacle gives ''; with full=False the unobstructed glycan gives the same molecule as under full=True and a glycan "
                 "whose only obstacle is an unsupported modification gives the molecule without it; non-trivial = distinct (input, full) pair "
                 "whose unobstructed form converts")
+    # an injected modification counts only if the front-end reads the variant as the base's tokens plus exactly that token
+    # ('GlcN' + '3LL' re-lexes as Glc, N3, LL: not the intended obstacle)
+    toks = pmap(_all_tokens, [x for _, b, v, _ in relex for x in (b, v)], chunk=8)
+    bad = set()
+    for k, (i, b, v, inj) in enumerate(relex):
+        tb, tv = toks[2 * k], toks[2 * k + 1]
+        if tb is None or tv is None or sorted(tb + [inj]) != tv:
+            bad.add(i)
+            rep.count("variant-relexes-differently (dropped)")
+    keep = [k for k, m in enumerate(meta) if not (m[1] == "variant" and m[0] in bad)]
+    jobs, meta = [jobs[k] for k in keep], [meta[k] for k in keep]
     res = pmap(_job, jobs, chunk=4)
     base_true = {}
     for (i, role, full, kind, base), (s, _), r in zip(meta, jobs, res):
